@@ -1190,8 +1190,12 @@ def check_C17(ctx):
                     if got != exp[nm]:
                         bad[nm] += 1
                         ex.setdefault(nm, ((r1, s1), (r2, s2), got, exp[nm]))
-                for o in obls["chen_formula"] + obls["get_gap"]:
+                seen_sites = set()
+                for o in [o_ for nm_ in names for o_ in obls.get(nm_, [])]:
                     k = (o.fn, o.kind, o.line)
+                    if (k, id(o.cond)) in seen_sites:
+                        continue
+                    seen_sites.add((k, id(o.cond)))
                     try:
                         if all(cval(evaluate(pdb, c, env)) for c in o.pc) and not cval(evaluate(pdb, o.cond, env)):
                             panic[k] = panic.get(k, 0) + 1
